@@ -46,6 +46,10 @@ pub enum Op {
     CloneInto { rows: usize, extra: usize, base: i64 },
     /// `current.clone_from(&src)` where `src` has `rows` rows of `base + 3*row + column`
     CloneFrom { rows: usize, base: i64 },
+    /// address a cell that the table does not have - column `columns + over` of an existing row (`beyond_rows`
+    /// false) or an existing column of row `rows + over` - through `Index` / `IndexMut<MatrixCoordinates>`
+    /// (`by_row` false) or through the row slice; read it, or write `v` to it
+    Outside { row: usize, over: usize, beyond_rows: bool, by_row: bool, write: bool, v: i64 },
 }
 
 #[derive(Clone, Debug, Serialize, Deserialize)]
@@ -129,6 +133,8 @@ fn op_strategy() -> BoxedStrategy<Op> {
         1 => (-3i64..=3).prop_map(Op::IntoIterMutAdd),
         1 => (rows.clone(), 0usize..=40, val.clone()).prop_map(|(rows, extra, base)| Op::CloneInto { rows, extra, base }),
         1 => (rows.clone(), val.clone()).prop_map(|(rows, base)| Op::CloneFrom { rows, base }),
+        2 => (any::<usize>(), prop_oneof![4 => 0usize..=2, 2 => 0usize..=40, 1 => 0usize..=4000], any::<bool>(), any::<bool>(), any::<bool>(), val.clone())
+            .prop_map(|(row, over, beyond_rows, by_row, write, v)| Op::Outside { row, over, beyond_rows, by_row, write, v }),
     ]
     .boxed()
 }
@@ -210,6 +216,7 @@ fn run<T: Elem, C: ArrayLength + PartialEq>(case: &Case) -> Verdict {
     let mut wrote = false;
     let mut grew_after_write = false;
     let mut shrank = false;
+    let mut outside = 0usize;
     if let Some(f) = verify(0, "new(0)", &m, &model, &mut info) {
         return Verdict::Fail(f);
     }
@@ -327,6 +334,42 @@ fn run<T: Elem, C: ArrayLength + PartialEq>(case: &Case) -> Verdict {
                 m = dst;
                 name = "clone_from (destination)";
             }
+            Op::Outside { row, over, beyond_rows, by_row, write, v } => {
+                let (r, col) = if *beyond_rows || model.is_empty() { (model.len() + over, row % c) } else { (row % model.len(), c + over) };
+                let val = T::from_i64(*v);
+                let mm = &mut m;
+                let outcome = catch_inner(move || {
+                    if *by_row {
+                        if *write {
+                            mm[r][col] = val;
+                        } else {
+                            std::hint::black_box(mm[r][col]);
+                        }
+                    } else if *write {
+                        mm[MatrixCoordinates::new(r, col)] = val;
+                    } else {
+                        std::hint::black_box(mm[MatrixCoordinates::new(r, col)]);
+                    }
+                });
+                info.comparisons += 1;
+                if outcome.is_ok() {
+                    return Verdict::Fail(Failure::new(
+                        "dense:cell-outside-the-table",
+                        format!(
+                            "after op #{}: a {} of cell (row {}, column {}) through {} succeeded on a table of {} rows x {} columns",
+                            i + 1,
+                            if *write { "write" } else { "read" },
+                            r,
+                            col,
+                            if *by_row { "the row slice" } else { "MatrixCoordinates" },
+                            model.len(),
+                            c
+                        ),
+                    ));
+                }
+                outside += 1;
+                name = "cell-outside-the-table";
+            }
             Op::CloneFrom { rows, base } => {
                 let src_rows: Vec<Vec<T>> = (0..*rows).map(|i| (0..c).map(|j| T::from_i64(base.wrapping_add((3 * i + j) as i64))).collect()).collect();
                 let src = DenseMatrix::<T, C>::from_rows(src_rows.iter());
@@ -435,6 +478,7 @@ fn run<T: Elem, C: ArrayLength + PartialEq>(case: &Case) -> Verdict {
     });
     info.class_if(grew_after_write, "grow-after-write");
     info.class_if(shrank, "shrink");
+    info.class_if(outside > 0, "cell-outside-the-table-addressed");
     info.class_if(case.ops.iter().any(|o| matches!(o, Op::CloneContinue)), "clone");
     info.class_if(case.ops.iter().any(|o| matches!(o, Op::CloneInto { .. } | Op::CloneFrom { .. })), "clone_from");
     info.class_if(case.ops.iter().any(|o| matches!(o, Op::Fill(_))), "fill");
@@ -461,7 +505,7 @@ impl Sub for Model {
         "model"
     }
     fn rule(&self) -> &'static str {
-        "element type {u8, u32, f32, i64, Nucleotide (whose default is not the zero bit pattern)} x column count {1,5,7,16,21,32,43} x history of up to 40 ops (new, with_capacity, resize grow/shrink/0, reserve, cell writes via both Index forms, row writes, fill, from_rows, clone-and-continue, clone_from in both directions between matrices of different row counts and capacities, iter_mut, into_iter_mut.rev); after EVERY op rows/columns/all cells/row pointer alignment/stride/iterators (forward, reverse, mixed double-ended, len) are compared with a Vec<Vec<T>> model, then equality against a matrix with equal cells but a different padding history, and (f32) equality of a matrix holding a NaN with its clone and with itself (by the cells: unequal both times); non-trivial = >= 5 ops incl. a growing resize after writes and a shrink"
+        "element type {u8, u32, f32, i64, Nucleotide (whose default is not the zero bit pattern)} x column count {1,5,7,16,21,32,43} x history of up to 40 ops (new, with_capacity, resize grow/shrink/0, reserve, cell writes via both Index forms, row writes, fill, from_rows, clone-and-continue, clone_from in both directions between matrices of different row counts and capacities, iter_mut, into_iter_mut.rev, and reads / writes of a cell the table does not have - a column >= columns of an existing row or a row >= rows - through MatrixCoordinates and through the row slice, which must be refused); after EVERY op rows/columns/all cells/row pointer alignment/stride/iterators (forward, reverse, mixed double-ended, len) are compared with a Vec<Vec<T>> model, then equality against a matrix with equal cells but a different padding history, and (f32) equality of a matrix holding a NaN with its clone and with itself (by the cells: unequal both times); non-trivial = >= 5 ops incl. a growing resize after writes and a shrink"
     }
     fn cases(&self, tier: Tier) -> u64 {
         tier.pick(28 * 3_000, 28 * 60_000)
